@@ -116,6 +116,10 @@ type OlvmTweak struct {
 	ExtraSig       bool          // a second signature
 	NilChainID     bool          // payload without chain id
 	SigLen         int           // length of the signature field (default 65)
+	TxType         int64         // payload "type" (default 0 = legacy)
+	AccessList     bool          // payload carries an (empty) access list
+	EnvelopeKey    *EthAcct      // public key put into Signatures[0].Signer (default: the signing key)
+	PayloadSpace   bool          // payload bytes = canonical encoding + one space
 }
 
 // OlvmTx builds the network bytes of an OLVM transaction the way web3/utils.EthToOLSignedTx does:
@@ -145,9 +149,16 @@ func (w *OlvmWorld) OlvmTx(from *EthAcct, to *keys.Address, nonce uint64, value 
 	if tw.NilChainID {
 		msg.ChainID = nil
 	}
+	msg.TxType = tw.TxType
+	if tw.AccessList {
+		msg.AccessList = &ethtypes.AccessList{}
+	}
 	payload, err := msg.Marshal()
 	if err != nil {
 		panic(err)
+	}
+	if tw.PayloadSpace {
+		payload = append(payload, ' ')
 	}
 	memo := strconv.FormatUint(nonce, 10)
 	if tw.Memo != nil {
@@ -173,9 +184,13 @@ func (w *OlvmWorld) OlvmTx(from *EthAcct, to *keys.Address, nonce uint64, value 
 	if tw.SigLen > 0 && tw.SigLen != len(sig) {
 		sig = append(sig, make([]byte, 8)...)[:tw.SigLen]
 	}
-	st := action.SignedTx{RawTx: raw, Signatures: []action.Signature{{Signer: key.Pub, Signed: sig}}}
+	envKey := key.Pub
+	if tw.EnvelopeKey != nil {
+		envKey = tw.EnvelopeKey.Pub
+	}
+	st := action.SignedTx{RawTx: raw, Signatures: []action.Signature{{Signer: envKey, Signed: sig}}}
 	if tw.ExtraSig {
-		st.Signatures = append(st.Signatures, action.Signature{Signer: key.Pub, Signed: sig})
+		st.Signatures = append(st.Signatures, action.Signature{Signer: envKey, Signed: sig})
 	}
 	b, err := serialize.GetSerializer(serialize.NETWORK).Serialize(&st)
 	if err != nil {
@@ -221,6 +236,17 @@ func rtDestruct(b keys.Address) []byte {
 	c := []byte{0x36, 0x60, 0x05, 0x57, 0x00, 0x5b, 0x73}
 	c = append(c, ethcmn.BytesToAddress(b).Bytes()...)
 	return append(c, 0xff)
+}
+
+// rtPayDead: CALL(gas, A, 0, in 0..1) — one byte of call data makes the destruct contract A
+// selfdestruct — then CALL(gas, A, 1, no data): pays the dead contract 1; STOP
+func rtPayDead(a keys.Address) []byte {
+	aa := ethcmn.BytesToAddress(a).Bytes()
+	c := []byte{0x60, 0x00, 0x60, 0x00, 0x60, 0x01, 0x60, 0x00, 0x60, 0x00, 0x73}
+	c = append(c, aa...)
+	c = append(c, 0x5a, 0xf1, 0x50, 0x60, 0x00, 0x60, 0x00, 0x60, 0x00, 0x60, 0x00, 0x60, 0x01, 0x73)
+	c = append(c, aa...)
+	return append(c, 0x5a, 0xf1, 0x50, 0x00)
 }
 
 // CodeStore42 is creation code of the toggle contract (development aid).
